@@ -132,6 +132,8 @@ type c20lsFn struct {
 	fresh    map[string]bool
 	epoch    int // number of Lock/Unlock events emitted so far: two points share a region iff equal
 	snap     map[string]c20lsSnap
+	readEp   map[string]map[int]bool // guarded variable -> lock epochs of this function in which it was read
+	ngetter  int
 	params   []string
 }
 
@@ -535,9 +537,28 @@ func (f *c20lsFn) access(e ast.Expr, write bool) {
 	}
 	if write {
 		f.emit("GWr " + c20CoqStr(c))
+		// check-then-act / snapshot-then-reset: the function looked at c in an EARLIER critical section
+		// (or through a getter) and overwrites it in this one -- whatever other threads did to c in
+		// between is lost, whether or not the written value is computed from the one read
+		if !isBarrier {
+			for e := range f.readEp[c] {
+				if e != f.epoch {
+					f.rmw(c, false)
+					break
+				}
+			}
+		}
 	} else {
 		f.emit("GRd " + c20CoqStr(c))
+		f.noteRead(c, f.epoch)
 	}
+}
+
+func (f *c20lsFn) noteRead(c string, epoch int) {
+	if f.readEp[c] == nil {
+		f.readEp[c] = map[int]bool{}
+	}
+	f.readEp[c][epoch] = true
 }
 
 // base of an lvalue: p.stringTable[i] = .. and *x = .. write the underlying variable
@@ -680,7 +701,7 @@ func (f *c20lsFn) sub(kind string, fl *ast.FuncLit, isGo bool) string {
 		}
 	}
 	g := &c20lsFn{p: f.p, key: key, env: env, imports: f.imports, ev: &ev, explicit: map[string]int{}, captured: map[string]bool{},
-		outer: outer, inGo: isGo || f.inGo, loopVars: map[string]bool{}, fresh: map[string]bool{}, snap: map[string]c20lsSnap{}}
+		outer: outer, inGo: isGo || f.inGo, loopVars: map[string]bool{}, fresh: map[string]bool{}, snap: map[string]c20lsSnap{}, readEp: map[string]map[int]bool{}}
 	if fl.Type.Params != nil {
 		for _, p := range fl.Type.Params.List {
 			for _, n := range p.Names {
@@ -857,6 +878,7 @@ func (f *c20lsFn) call(c *ast.CallExpr) {
 				f.emit("GWr " + c20CoqStr(v))
 			}
 			f.setterCall(fn.Name, c)
+			f.getterCall(fn.Name)
 			f.p.calls[fn.Name]++
 			f.emit("GCall " + c20CoqStr(f.p.spec.pkg+":"+fn.Name))
 		}
@@ -896,6 +918,7 @@ func (f *c20lsFn) call(c *ast.CallExpr) {
 		}
 		if mok {
 			f.setterCall(mkey, c)
+			f.getterCall(mkey)
 			f.p.calls[mkey]++
 			f.emit("GCall " + c20CoqStr(f.p.spec.pkg+":"+mkey))
 			return
@@ -936,6 +959,13 @@ func (f *c20lsFn) checkFresh(c *ast.CallExpr) {
 
 // setterCall: publishing a value derived from a snapshot of v through a function that assigns v
 // under its own lock is a read-modify-write split over two regions
+func (f *c20lsFn) getterCall(k string) {
+	if v, ok := f.p.getters[k]; ok {
+		f.ngetter++
+		f.noteRead(v, -f.ngetter) // a region of the callee: never equal to an epoch of this function
+	}
+}
+
 func (f *c20lsFn) setterCall(k string, c *ast.CallExpr) {
 	st, ok := f.p.setters[k]
 	if !ok || st.idx >= len(c.Args) {
@@ -943,6 +973,8 @@ func (f *c20lsFn) setterCall(k string, c *ast.CallExpr) {
 	}
 	if sn := f.snapOf(c.Args[st.idx]); sn != nil && sn.v == st.v {
 		f.rmw(st.v, false)
+	} else if len(f.readEp[st.v]) > 0 {
+		f.rmw(st.v, false) // the setter's region is never the region of an earlier read in this function
 	}
 }
 
@@ -1259,7 +1291,7 @@ func (p *c20lsPkg) scan() {
 			}
 			var ev []string
 			f := &c20lsFn{p: p, key: key, env: env, imports: imports, ev: &ev, explicit: map[string]int{}, captured: map[string]bool{},
-				outer: map[string]bool{}, loopVars: map[string]bool{}, fresh: map[string]bool{}, snap: map[string]c20lsSnap{}, params: params}
+				outer: map[string]bool{}, loopVars: map[string]bool{}, fresh: map[string]bool{}, snap: map[string]c20lsSnap{}, readEp: map[string]map[int]bool{}, params: params}
 			f.stmts(fd.Body.List)
 			f.finish()
 			p.events[key] = ev
